@@ -345,6 +345,8 @@ class Forcing:
         from .mir import norm_name
         ty = (b._place_type(st["rv"]["place"]) or "").lstrip("&").replace("mut ", "")
         adt = b.prog.adts.get(norm_name(ty))
+        if not adt and ty.startswith(("std::option::Option<", "core::option::Option<")):
+            adt = {"variants": [{"name": "None"}, {"name": "Some"}]}
         if not adt:
             return None
         for i, v in enumerate(adt.get("variants", [])):
